@@ -78,7 +78,7 @@ CHECKS = {
                 'replayed per phase; the decode loop ends only at end of input; unknown bytes raise. Five genuine gaps are recorded as '
                 'known findings. Equality of the replayed state on concrete modules is not observed. writer-lossless: in every encoding case each argument of the call is written, tied to a stack slot by the tracker, or forced to its default by the condition selecting the case (24 cases).'
                 ' The opcode dispatched on is Instruction(<the byte the loop condition read>), unchanged; the k-th operand read is handed to the parameter the k-th written operand comes from (reader-order: a swap of two equally shaped operands replays another term).'
-                ' Reader slots are strict (a parameter the tracker compares with stack[-k] must be that slot); Instantiate takes the n entries directly below the top keyed by the n ids read; Load replays memory[<operand>]; the claim published / the theorem compared is the top; the cursor starts at 0; the list reader returns what it read.',
+                ' Reader slots are strict (a parameter the tracker compares with stack[-k] must be that slot); Instantiate takes the n entries directly below the top keyed by the n ids read; Load replays memory[<operand>]; the claim published / the theorem compared is the top; the cursor starts at 0; the list reader returns what it read. Since wave 6 the replayed call must supply every parameter of the interpreter method, and operand reads are counted per execution so that readers binding each list by its own statement are decided by the operand-order rule.',
         'note': 'Trusted: python ast. Known findings: no decoder branch for Quantifier/Generalization, constraint element types, Publish in gamma/proof phases.',
         'design_ref': 'DESIGN.md section 3, C14',
     },
@@ -203,7 +203,7 @@ CHECKS = {
                 ' The hypothesis numbering is found in converter helpers and in comprehension form; the number->label table extended with a proof\'s labels is created per proof (label-table-fresh); a decoder written with zip over a place-value table needs a table that reaches 10^6. The digit weights are decided by induction-variable analysis of the decoding loop (constants, pow(5, counter), running products); the set that selects the mandatory hypotheses is <statement>.get_metavariables(), and numbering in the order of another collection of the converter is a violation.'
                 ' The decoded number is exactly ls[last letter] plus the weighted high digits (also when the decoder is written in place in the loop over the letters); the letter buffer is emptied exactly on the iterations that close a number; the listed labels continue at len(table) + 1 and advance by one per label.'
                 ' A character-scanning label loop hands a label on only at `<letter>.isspace()`; the list of steps given to Proof(..) is made for that proof (steps-fresh-per-proof); digit tables and the decoder may live on an object.'
-                ' Every token is recorded (one number per closing letter, one marker per Z with an empty buffer); the three scanning loops of the label list are positioned after `(`, at the first non-blank and at `)` (linear forms), the returned offset is the position after `)`.',
+                ' Every token is recorded (one number per closing letter, one marker per Z with an empty buffer); the three scanning loops of the label list are positioned after `(`, at the first non-blank and at `)` (linear forms), the returned offset is the position after `)`. Since wave 6 the label rules also read the collect-then-number spelling and scans by absolute position, and the digit rules the indexed sum (every high digit is read).',
         'note': 'Trusted: python ast; _floating_patterns is appended in database order.',
         'design_ref': 'DESIGN.md section 3, C15',
     },
@@ -235,7 +235,7 @@ CHECKS = {
                 'proof rules are outside the stated fragment (reported as advisory). The numbering of the target\'s mandatory hypotheses and the label-list tokens are checked with C15\'s rules (the replay resolves the letters through them). get_delta adds exactly one entry per metavariable label on every path; every Axiom / Lemma the converter builds takes its `metavars` from the statement\'s variables, never from the metavariables of the converted pattern (the assumption of the stack rule, checked at its 5 construction sites).'
                 ' Rules with antecedents unite their own metavariables with those of every antecedent (floats-from-statement/union), read through converter helpers. The step numbers are decoded with C15\'s digit tables and digit order; the n-ary application of an undeclared constructor is curried over its arguments front to back (curried-in-argument-order); main() constructs the module with the declared axioms and the patterns of all lemmas as claims.'
                 ' Essential hypotheses of an axiom are set aside top-first, remembered as (name, proof) of the very stack top, and discharged in the reverse order by load + modus ponens (antecedent-discharge); a label no branch claims may not be passed over silently. The listed labels are numbered consecutively after the hypotheses (shared with C15).'
-                " Every term handed to a tracked call in the replay is the stack slot the tracker compares it with (tracker-slots); convert_to_implication puts the first antecedent outermost; the converter's Z marker is the constant exec_proof tests.",
+                " Every term handed to a tracked call in the replay is the stack slot the tracker compares it with (tracker-slots); convert_to_implication puts the first antecedent outermost; the converter's Z marker is the constant exec_proof tests. Since wave 6 the rules read exec_proof with table-driven arms and value-returning local helpers written out; a branch that pushes another propositional axiom than its label names is reported.",
         'note': 'Trusted: tracker effects (decided under C04), prelude statements in the benchmark databases, assumption that the '
                 'mandatory floats of a non-prelude label are get_metavars_in_order(label) and its essentials are the antecedents.',
         'design_ref': 'DESIGN.md section 3, C16',
@@ -257,7 +257,7 @@ CHECKS = {
                 ' A set iteration in the slicer is order-free only if all it produces in order is a run of `$d` statements (they commute), whatever its spelling; a `$d` restriction is emitted exactly under `pair <= declared variables`.'
                 " Every antecedent component a lemma block is taken apart into reaches both the lemma's own slice and the axiom registered for later slices (sibling agreement)."
                 ' The small functions the slicer is built from are decided on the values they return (labels between the parentheses, block = antecedents + lemma, registered axiom, notation axiom of a constructor, constant scan); arguments are not exchanged (arguments-by-name); what is needed is never passed over by the emitting pass.'
-                ' The printer half: per Encoder method and path, every field of the node is written (unless known empty), tokens are separated by blanks, delimiters come in pairs, `$` is followed by the statement letter, a provable statement gets `$=` (printer-output).',
+                ' The printer half: per Encoder method and path, every field of the node is written (unless known empty), tokens are separated by blanks, delimiters come in pairs, `$` is followed by the statement letter, a provable statement gets `$=` (printer-output). Since wave 6: the $c / $v statements are built from the whole collected sets, and notation axioms and syntax dependencies are added for every label of the set.',
         'note': 'Trusted: python ast; the grammar is read from the `syntax` constant of metamath/parser.py.',
         'design_ref': 'DESIGN.md section 3, C17',
     },
@@ -288,7 +288,7 @@ CHECKS = {
                 'modules cannot even be imported here; the analysis is purely syntactic). KSymbol.unwrap_kore_name is the exact inverse of the prefixing in aml_symbol (removeprefix / slice of the prefix length under a startswith guard); the rows of instantiate, load and the publishes (the only calls a K proof makes) are the C02 rows.'
                 ' get_proof_hints examines every adjacent pair of trace entries (loop header evaluated over four abstract entries); the configuration is advanced only after the claim and the proof are registered, decided by event order through helper methods.'
                 ' The scope tables are distinct objects per scope (no dict.fromkeys(keys, {}) / [[..]] * n sharing).'
-                " Every hint of the trace becomes one rewrite step on one proof expression; the rule's axiom is declared before the proof is registered; a hint's configuration before is what the previous step reached and its configuration after is the conversion of the next trace entry (hint-chains-configurations); each Kore connective is converted to its notation with the components in the connective's own order (conversion-order, 13 arms).",
+                " Every hint of the trace becomes one rewrite step on one proof expression; the rule's axiom is declared before the proof is registered; a hint's configuration before is what the previous step reached and its configuration after is the conversion of the next trace entry (hint-chains-configurations); each Kore connective is converted to its notation with the components in the connective's own order (conversion-order, 13 arms). Since wave 6: a step is built only from a rule event followed by a configuration (class test on the next entry on the yielding path), and the scope cached for an axiom is the one made in the branch of that axiom.",
         'note': 'Trusted: python ast.',
         'design_ref': 'DESIGN.md section 3, C20',
     },
